@@ -48,6 +48,7 @@ type HSpec struct {
 	Checker bool  `json:"checker,omitempty"` // implements callbacks.TimingChecker
 	Needs   []int `json:"needs,omitempty"`   // timing codes it asks for (when Checker)
 	Stream  int   `json:"stream,omitempty"`  // stream payloads: 0 read all, 1 close at once, 2 read one chunk then close
+	Builder bool  `json:"builder,omitempty"` // (with Checker) made with callbacks.NewHandlerBuilder(): a function for exactly the timings in Needs
 }
 
 // SOp is one operation of a white-box script.
@@ -126,6 +127,11 @@ type Case struct {
 	ResumeFault string `json:"resume_fault,omitempty"`
 	FaultAt     int    `json:"fault_at,omitempty"`
 	Seed        uint64 `json:"seed,omitempty"`
+	// another call on the SAME compiled object, with handlers of its own (the options of the case in reverse order
+	// plus one more for the whole graph, all with handler objects that are passed to that call only): "before" =
+	// it is made and has ended before the observed call starts; "during" = the two calls run concurrently (which
+	// of them starts first is seeded). No handler of either call may be invoked for a unit of the other.
+	Neighbour string `json:"neighbour,omitempty"`
 	// stream
 	NH   int    `json:"nh,omitempty"`   // number of handlers passed to InitCallbacks
 	Src  int    `json:"src,omitempty"`  // number of chunks of the source
@@ -153,6 +159,45 @@ type sink struct {
 	evts []*evt
 	pend int // handler goroutines still reading their copy of a stream payload
 	curU int
+	// invocations that crossed from one call to another call on the same compiled graph (see neighbourKey)
+	stray []string
+}
+
+// A graph case may make a second call on the SAME compiled object (before or while the observed call
+// runs), with handlers of its own: the "neighbour" call. Its context carries neighbourKey, and eino derives
+// every context it hands to node bodies and handlers from the caller's: a handler and a node body can tell
+// which of the two calls they are serving. A handler that was passed to one call only must never be
+// invoked on a context of the other.
+type callTag struct{}
+
+var neighbourKey callTag
+
+func isNeighbour(ctx context.Context) bool { return ctx != nil && ctx.Value(neighbourKey) != nil }
+
+// foreign: the invocation does not belong to the observed call (it is not recorded); counts the ones that
+// must not exist at all.
+func (r *recH) foreign(ctx context.Context, t int, info *callbacks.RunInfo) bool {
+	nb := isNeighbour(ctx)
+	if nb == r.shadow {
+		return r.shadow // a shadow handler serving the neighbour call: fine, not recorded
+	}
+	if !r.shadow && r.global {
+		return true // a global handler applies to every call of the process
+	}
+	name := "<nil info>"
+	if info != nil {
+		name = info.Name
+	}
+	r.s.mu.Lock()
+	if len(r.s.stray) < 4 {
+		if r.shadow {
+			r.s.stray = append(r.s.stray, fmt.Sprintf("handler %d, passed only to ANOTHER call on the same compiled graph, was invoked (timing %d) for unit %s of this call", r.spec.ID, t, name))
+		} else {
+			r.s.stray = append(r.s.stray, fmt.Sprintf("handler %d, passed only to this call, was invoked (timing %d) for unit %s of ANOTHER call on the same compiled graph", r.spec.ID, t, name))
+		}
+	}
+	r.s.mu.Unlock()
+	return true
 }
 
 func (s *sink) add(h, t int, info *callbacks.RunInfo, payload string, full bool) *evt {
@@ -169,19 +214,30 @@ func (s *sink) add(h, t int, info *callbacks.RunInfo, payload string, full bool)
 }
 
 type recH struct {
-	spec HSpec
-	s    *sink
+	spec   HSpec
+	s      *sink
+	shadow bool // a handler of the neighbour call (nothing it sees is recorded)
+	global bool // installed process-wide
 }
 
 func (r *recH) OnStart(ctx context.Context, info *callbacks.RunInfo, in callbacks.CallbackInput) context.Context {
+	if r.foreign(ctx, 0, info) {
+		return ctx
+	}
 	r.s.add(r.spec.ID, 0, info, render(in), true)
 	return ctx
 }
 func (r *recH) OnEnd(ctx context.Context, info *callbacks.RunInfo, out callbacks.CallbackOutput) context.Context {
+	if r.foreign(ctx, 1, info) {
+		return ctx
+	}
 	r.s.add(r.spec.ID, 1, info, render(out), true)
 	return ctx
 }
 func (r *recH) OnError(ctx context.Context, info *callbacks.RunInfo, err error) context.Context {
+	if r.foreign(ctx, 2, info) {
+		return ctx
+	}
 	r.s.add(r.spec.ID, 2, info, errClass(err), true)
 	return ctx
 }
@@ -203,11 +259,19 @@ func errClass(err error) string {
 	return "error"
 }
 func (r *recH) OnStartWithStreamInput(ctx context.Context, info *callbacks.RunInfo, in *schema.StreamReader[callbacks.CallbackInput]) context.Context {
+	if r.foreign(ctx, 3, info) {
+		in.Close()
+		return ctx
+	}
 	e := r.s.add(r.spec.ID, 3, info, "", false)
 	r.consume(e, func() (any, error) { return in.Recv() }, in.Close)
 	return ctx
 }
 func (r *recH) OnEndWithStreamOutput(ctx context.Context, info *callbacks.RunInfo, out *schema.StreamReader[callbacks.CallbackOutput]) context.Context {
+	if r.foreign(ctx, 4, info) {
+		out.Close()
+		return ctx
+	}
 	e := r.s.add(r.spec.ID, 4, info, "", false)
 	r.consume(e, func() (any, error) { return out.Recv() }, out.Close)
 	return ctx
@@ -261,17 +325,57 @@ func (r recHTC) Needed(_ context.Context, _ *callbacks.RunInfo, timing callbacks
 	return false
 }
 
+// builtBases: handler made by the public builder -> the recording handler behind it
+var builtBases sync.Map
+
 func makeHandlers(specs []HSpec, s *sink) map[int]callbacks.Handler {
 	m := map[int]callbacks.Handler{}
 	for _, sp := range specs {
 		base := &recH{spec: sp, s: s}
-		if sp.Checker {
+		if sp.Checker && sp.Builder {
+			// the public builder: its handler asks (TimingChecker) for exactly the timings it was given a function for
+			hb := callbacks.NewHandlerBuilder()
+			if needsT(sp, 0) {
+				hb.OnStartFn(base.OnStart)
+			}
+			if needsT(sp, 1) {
+				hb.OnEndFn(base.OnEnd)
+			}
+			if needsT(sp, 2) {
+				hb.OnErrorFn(base.OnError)
+			}
+			if needsT(sp, 3) {
+				hb.OnStartWithStreamInputFn(base.OnStartWithStreamInput)
+			}
+			if needsT(sp, 4) {
+				hb.OnEndWithStreamOutputFn(base.OnEndWithStreamOutput)
+			}
+			h := hb.Build()
+			builtBases.Store(h, base)
+			m[sp.ID] = h
+		} else if sp.Checker {
 			m[sp.ID] = recHTC{base}
 		} else {
 			m[sp.ID] = base
 		}
 	}
 	return m
+}
+
+// baseOf: the recording handler behind a handler value made by makeHandlers
+func baseOf(h callbacks.Handler) *recH {
+	switch t := h.(type) {
+	case *recH:
+		return t
+	case recHTC:
+		return t.recH
+	case nil:
+		return nil
+	}
+	if b, ok := builtBases.Load(h); ok {
+		return b.(*recH)
+	}
+	return nil
 }
 
 func handlerID(h callbacks.Handler) int {
@@ -282,6 +386,9 @@ func handlerID(h callbacks.Handler) int {
 		return t.spec.ID
 	case nil:
 		return 0
+	}
+	if b := baseOf(h); b != nil {
+		return b.spec.ID
 	}
 	return -1
 }
